@@ -225,6 +225,25 @@ def r8(ctx):
     ctx.check(bool(words), rule, b.path + '|unknown-zone-refused', b.where(), 'a time given with a zone name the parser does not resolve is refused instead of being taken as local time',
               'dtparse returns no offset both when the string has no zone and when it has a zone NAME it does not know (JST, EST, CEST - what `date` prints; it even prints "tzname .. identified but not '
               'understood" on stdout), and parse_date_time takes the digits as local time in both cases: `remove -m "2024-05-01 12:00:00 JST"` on a machine running in UTC sets the limit 9 hours too late')
+    # (d) the offset is not the one dtparse reports: dtparse 2.0 reads `+0530` as +05:00 (it measures the sign token), `UTC+9` / `GMT+9` as 9 hours
+    # BEHIND UTC (the POSIX reading) - the offset applied to the wall-clock time comes from fclones' own reading of the string, and a zone that only
+    # dtparse has seen is refused
+    from_parser = []
+    own = False
+    for x in bodies:
+        for c in x.calls(r'from_local_datetime$'):
+            if 'FixedOffset' not in ((c.t.get('argtys') or [''])[0]):
+                continue
+            sl = backslice(x, [c.args[0]])
+            if any(k.bb == ps[0].bb and x is b for k in sl.calls):
+                from_parser.append(c)
+            if sl.has_call(r'^config::\w+$'):
+                own = True
+    ctx.check(not from_parser and own, rule, b.path + '|offset-read-by-fclones', (from_parser[0].where() if from_parser else ps[0].where()),
+              'the offset applied to the parsed wall-clock time is read by fclones itself (a function of config::), never the one dtparse reports',
+              'the offset reported by dtparse is trusted: dtparse 2.0.0 reads `+0530` as +05:00 (lib.rs:843 measures the sign token, the minutes are dropped), `UTC+09:00` / `GMT+9` as nine hours BEHIND '
+              'UTC, and ignores the `+9` of `UTC +9`: `remove -m "2024-05-01 12:00:00.000 +0530"` - the very form fclones writes into its reports - sets the limit 30 minutes late, with `UTC+09:00` '
+              '18 hours late, and a file rewritten in between is removed as a duplicate of what it no longer is')
     ctx.check(bool(as_local) and not as_utc, rule, b.path + '|wall-clock-in-its-zone', (as_utc[0].where() if as_utc else ps[0].where()),
               'the parsed date and time are taken as the wall-clock time of the given (or local) time zone (%d conversions)' % len(as_local),
               'the date and time parsed from --modified-before are wall-clock digits in the given (or local) offset, but they are handed to from_naive_utc_and_offset, which reads the same digits as UTC: '
@@ -287,6 +306,13 @@ def r3(ctx):
               'the stored mtime is compared with the millisecond time stamp of the report as it is: on a file system that keeps whole seconds (ext3, ext4 with 128-byte inodes, HFS+, NFS/SMB servers; '
               'FAT: 2 s) a write made after `fclones group` started, but within the same second, is stored with a time BEFORE the report time stamp - the group is processed on the stale belief and '
               'the only file still holding the original bytes is removed')
+    # a time beyond the range of the calendar (tmpfs, btrfs, ZFS, NFS store what they are given: `touch -d @99999999999999`, damaged metadata) is far in
+    # the future, not a reason to panic: the file time does not go through chrono's From<SystemTime> (it unwraps timestamp_opt) on its way to the comparison
+    conv = [c for c in b.calls(r'convert::(From|Into)<.*>>::(from|into)$')
+            if 'SystemTime' in ((c.t.get('argtys') or [''])[0]) and 'DateTime' in (c.dty or '') and backslice(b, [c.args[0]]).has_call(r'Metadata::modified$')]
+    ctx.check(not conv, rule, P + '|out-of-range-mtime-is-no-panic', (conv[0].where() if conv else b.where(cmp.line)), 'the file time is compared as a SystemTime: no conversion that can fail on the way',
+              'the modification time is converted with DateTime::<Local>::from(SystemTime), which unwraps timestamp_opt() and panics ("No such local time") for a time beyond the year +-262143: one member '
+              'with such an mtime makes remove / link / move / dedupe (and --dry-run) die with exit 101 and a truncated script, instead of skipping its group with a warning')
     # the comparison is between instants, not wall-clock readings in possibly different UTC offsets
     tys = []
     if isinstance(cmp.site, Call):
